@@ -140,7 +140,7 @@ theorem searchBest_progress (hnbuf : 0 < nbuf)
 end
 
 section
-variable {c : Cfg} {H : Nat → Prop} {m : Mem}
+variable {c : Cfg} {H : Nat → Nat} {m : Mem}
 
 /-- a tree with a positive free count contains a free frame -/
 theorem exists_free_frame (okg : GeomOk c.geom) (i : Nat) (h : 1 ≤ m.freeInTree c.geom i) :
